@@ -108,16 +108,19 @@ Definition on_pool (k : nat) (f : pool -> pool) (s : state) : state :=
 Definition compound_detected (s : state) : state :=
   set_cst (add_active (emit (set_ccb s (S (c_cb s))) LCompound) (-1)) MTerminated.
 
+(* "if( tp->tdm.monitor == BUSY && nbpa == 0 ) CAS BUSY -> TERMINATING, termination_detected" *)
+Definition compound_check (s : state) : state :=
+  if is_busy (c_st s) && (c_pa s =? 0) then compound_detected s else s.
+
 (* taskpool_addto_runtime_actions(compound, -1) *)
-Definition compound_dec (s : state) : state :=
-  let s1 := set_cpa s (c_pa s - 1) in
-  if is_busy (c_st s1) && (c_pa s1 =? 0) then compound_detected s1 else s1.
+Definition compound_dec (s : state) : state := compound_check (set_cpa s (c_pa s - 1)).
 
 (* ---- parsec_context_add_taskpool(ctx, taskpool_array[k]) ---------------------------- *)
 (* a member has its own detector (generated constructor): no taskpool_ready here;
    active_taskpools++, on_enqueue, startup hook = the startup task is scheduled.
    An index past the array reads the terminating NULL: the real code crashes there;
-   the model does nothing (unreachable, see CompoundProofs.no_null_add). *)
+   the model does nothing (unreachable: CompoundRefine.step_conc shows that every reachable
+   state only ever enables an existing member). *)
 Definition add_pool (k : nat) (s : state) : state :=
   match nth_error (pools s) k with
   | None => s
@@ -188,17 +191,22 @@ Definition set_task (k i : nat) (v : tst) (s : state) : state :=
 Definition su_of (s : state) (k : nat) : nat :=
   match nth_error (pools s) k with Some p => p_su p | None => 0%nat end.
 
+(* parsec_context_add_taskpool(ctx, compound):
+     tdm.module == NULL: open "local", monitor_taskpool, taskpool_ready (NOT_READY -> BUSY, and
+       "if nb_pending_actions == 0" the termination is reported at once);
+     active_taskpools++;
+     startup hook: set_runtime_actions(nb_taskpools) (with its own check), callbacks installed,
+       parsec_context_add_taskpool(member 0) *)
+Definition compound_add (s : state) : state :=
+  let s1 := compound_check (set_cst (set_added s) MBusy) in
+  let s2 := add_active s1 1 in
+  let s3 := compound_check (set_cpa s2 (Z.of_nat (length (pools s2)))) in
+  add_pool 0 s3.
+
 (* the compound proper (n >= 2 through parsec_compose; the model accepts any n >= 1) *)
 Definition step (s : state) (e : event) : state :=
   match e with
-  | EAdd =>
-      if c_added s then s else
-      let s1 := set_cst (set_added s) MBusy in                         (* monitor + taskpool_ready: NOT_READY -> BUSY *)
-      let s2 := if c_pa s1 =? 0 then compound_detected s1 else s1 in     (* ... if nb_pending_actions == 0: terminated *)
-      let s3 := add_active s2 1 in                                       (* active_taskpools++ *)
-      let s4 := set_cpa s3 (Z.of_nat (length (pools s3))) in             (* startup: set_runtime_actions(nb_taskpools) *)
-      let s5 := if is_busy (c_st s4) && (c_pa s4 =? 0) then compound_detected s4 else s4 in
-      add_pool 0 s5
+  | EAdd => if c_added s then s else compound_add s
   | EStartup k => if Nat.eqb (su_of s k) 1 then pool_startup pool_cb k s else s
   | EStartupDone k =>
       if Nat.eqb (su_of s k) 2 then pool_dec_pa pool_cb k (on_pool k (fun p => pset_su p 3) s) else s
